@@ -492,7 +492,7 @@ def mon_c06(sn, faulty):
         if c["res"] == "persistentvolumeclaims" and c["verb"] != "create":
             bad.append("claim %s %s: the controller may only create claims" % (c["verb"], c["name"]))
         if c["res"] == "persistentvolumeclaims" and c["verb"] == "create" and s["selector"] == "ok":
-            if "app=%s" % s["name"] not in (c.get("labels") or []):
+            if "app=%s" % (s.get("app") or s["name"]) not in (c.get("labels") or []):
                 bad.append("claim %s created without the selector's match labels (%s)" % (c["name"], c.get("labels")))
         if c["res"] == "pods" and c["verb"] == "create":
             if c.get("ident") is False and sn.domain_ok:     # (a phase-less cached pod is re-submitted as it is: outside the domain)
